@@ -185,6 +185,10 @@ func (r *DefaultReader) ReadLen() (n int) {
 
 func (r *DefaultReader) ReadBinary(bs []byte) (m int, err error) {
 	m = r.acquire(len(bs))
+	if m > len(bs) {
+		// more than requested may be buffered when data arrives together with an error
+		m = len(bs)
+	}
 	copy(bs, r.buf[r.ri:r.ri+m])
 	r.ri += m
 	if len(bs) > m {
